@@ -266,11 +266,13 @@ class Check:
             self.cov['samples'].append(x)
 
     # -- verdicts
-    def fail(self, key, what, replay):
-        """Record a failing input.  key identifies the input (matched against known_findings.json)."""
+    def fail(self, key, what, replay, tie=False):
+        """Record a failing input.  key identifies the input (matched against known_findings.json).
+        tie=True: only the model/implementation correspondence broke on this input (no property failure shown): such records
+        are reported together as ONE violation ending in no-failing-input-found unless a property-level failing input exists."""
         if any(f['key'] == key for f in self.failures):
             return
-        self.failures.append(dict(key=key, what=what, replay=replay))
+        self.failures.append(dict(key=key, what=what, replay=replay, tie=tie))
 
     def note(self, s):
         self.notes.append(s)
@@ -284,19 +286,31 @@ class Check:
         violations = 0
         lines = []
         reported_known = set()
+        ties = [f for f in self.failures if f.get('tie') and f['key'] not in known_keys]
         for f in self.failures:
             if f['key'] in known_keys:
                 if f['key'] not in reported_known:
                     reported_known.add(f['key'])
                     lines.append('KNOWN-FINDING: property=%s %s [%s]' % (pid, known_keys[f['key']].get('what', f['what']), f['key']))
                 continue
+            if f.get('tie'):
+                continue
             violations += 1
+            if ties:
+                f['replay'] = dict(f['replay'], correspondences_also_broken=[t['what'][:200] for t in ties[:10]])
             rp = self._write_replay(dict(property=pid, kind='failing-input', key=f['key'], what=f['what'],
                                           seed=self.seed, tier=self.tier, **f['replay']))
             lines.append('VIOLATION property=%s replay=%s' % (pid, rp))
         for k in self.known:
             if k['key'] not in reported_known:
                 print('[%s] note: known finding %s did not reproduce on this tree (not a violation)' % (pid, k['key']))
+        if ties and violations == 0:
+            violations += 1
+            rp = self._write_replay(dict(property=pid, kind='no-failing-input-found', seed=self.seed, tier=self.tier,
+                                          theorem_or_correspondence=[t['what'][:300] for t in ties[:20]],
+                                          first_inputs_where_model_and_implementation_differ=[t['replay'] for t in ties[:3]],
+                                          searched='%d evaluations on this run: the property itself held on the implementation for every one of them' % self.cov['evaluations']))
+            lines.append('VIOLATION property=%s replay=%s no-failing-input-found' % (pid, rp))
         proof_broken = self.proof['obligations'] > 0 and (self.proof['broken'] or self.proof['discharged'] != self.proof['obligations'])
         if proof_broken and violations == 0:
             violations += 1
